@@ -682,6 +682,8 @@ def finish(ctx, mod, proof, corr, t0, already_reported=False):
             'histogram': corr.histogram,
         })
         cov.update(corr.extra)
+        if getattr(ctx, 'fuzz_info', None):
+            cov['coverage_guided_search'] = ctx.fuzz_info
     ev = {
         'property_id': pid,
         'tier': ctx.requested_tier if ctx.requested_tier in ('quick', 'thorough') else 'quick',
